@@ -17,7 +17,7 @@ P = {
  "C11": ("proof", "every generated comparison kernel (1044 functions: bool and same-type results, vv/sv/vs, iterator variants) proved to deliver the truth value of Go's comparison of the specified operands in operand order, operands unchanged", "DESIGN.md 5 C11"),
  "C12": ("proof", "every generated unary kernel and map kernel (315 functions) proved against the specified scalar function per operation and element type (math/math32/cmplx routines as uninterpreted symbols named after the routine)", "DESIGN.md 5 C12"),
  "C13": ("proof", "Shape.S and AP.S proved against the same per-axis specification in rank-bounded mode (so the calculator agrees with execution); CalcStrides proved; CheckSlice/SliceDetails proved", "DESIGN.md 5 C13"),
- "C15": ("other", "partial: each generated masking predicate (MaskedEqual, NotEqual, Greater, GreaterEqual, Less, LessEqual, Inside, Outside; 13 element types each) is proved to mark exactly the elements satisfying Go's comparison - replacing a soft mask, or-ing into a hard one - with data unchanged (unbounded loop invariants); a slice carries the matching window of its source's mask (Dense.Slice); the validity-aware iterator kernels skip invalid positions (C06/C11/C12 iterator schemas) and FlatMaskedIterator is covered by C05. MaskedValues, mask reductions, run/edge finders and mask movement under transposition are not under contract", "DESIGN.md 5 C15"),
+ "C15": ("other", "partial: each generated masking predicate (MaskedEqual, NotEqual, Greater, GreaterEqual, Less, LessEqual, Inside, Outside; 13 element types each) is proved to mark exactly the elements satisfying Go's comparison - replacing a soft mask, or-ing into a hard one - with data unchanged (unbounded loop invariants); a slice carries the matching window of its source's mask (Dense.Slice); FlatMaskedIterator's validity stepping is proved (shared with C05); the validity-aware iterator kernels are checked under C06/C11/C12, not here. MaskedValues, mask reductions, run/edge finders and mask movement under transposition are not under contract", "DESIGN.md 5 C15"),
  "C16": ("other", "partial: the order flag algebra (HasSameOrder, setDataOrder, MakeDataOrder as bit-vector facts), column-major stride computation (CalcStridesColMajor, AP.calcStrides both orders), preservation of the order bits by AP.S and the contiguity flag it derives from the storage-outermost axis are proved; operations on column-major operands go through engine glue that is not under contract", "DESIGN.md 5 C16"),
  "C17": ("proof", "union of all schema instantiations: 2651 generated functions each satisfy the one type-generic contract schema of their family; structurally identical VCs across element types are solved once", "DESIGN.md 5 C17"),
  "C19": ("proof", "ownership discipline as per-function contracts over ghost state lib(array) in {caller, library, pooled}: T/SafeT/RollAxis/Shape.Repeat/reuseCheckShape/SetShape never retain, mutate or pool a caller slice; Clone/SafeT/AP.Clone/CloneTo/Shape.Clone results share no metadata array with their source; UT/Transpose/reuseCheckShape leave no reference to a pooled slice in a live tensor. Pools (BorrowInts/ReturnInts, borrowDense) and storage allocation are trusted contracts; histories are covered by each operation preserving the ownership invariant, not by exploring sequences", "DESIGN.md 5 C19"),
